@@ -44,6 +44,8 @@ def jobs(tier):
         add(side="step", k=1, table=False)
         add(side="step", k=1, table=True)
         add(side="step", k=2, table=False)
+        add(side="enc", k=1, L=2, fast=False, table=False, vt=0, max_steps=3, real_arith=True)
+        add(side="dec", k=1, L=3, n=2, fast=False, table=False, real_arith=True)
         add(side="dec", k=1, L=4, n=2, fast=False, table=False)
         add(side="dec", k=1, L=4, n=2, fast=False, table=True)
         add(side="dec", k=1, L=4, n=2, fast=True, table=False)
@@ -113,6 +115,8 @@ def body_step(e, L, cfg):
         if r == "sat":
             return {"status": "viol", "why": "dead end reported at a vertex with arcs", "cex": cex(m)}
         return {"status": "ok", "sample": {"step": "dead end <=> out-degree 0"}}
+    if kind == "nostate":
+        return {"status": "skip", "why": "inductive step not applicable to this source: " + info}
     if kind == "exc":
         r, m = e.check()
         return {"status": "viol", "why": info, "cex": cex(m)}
